@@ -570,10 +570,87 @@ impl Chain {
                 resp
             }
         };
-        for sub in resp.messages {
-            self.exec_cosmos(target, sub.msg)?;
+        self.exec_subs(target, resp.messages)
+    }
+
+    /// the sub-messages of a response, in order, with CosmWasm's `reply_on` semantics: a
+    /// sub-message that wants a reply runs in its own sub-transaction; when it fails its effects are
+    /// rolled back and — for `ReplyOn::Error` / `Always` — the error goes to the caller's `reply`
+    /// entry point instead of aborting the transaction. (The unchanged repository only emits
+    /// `ReplyOn::Never`, for which this is the plain depth-first execution.)
+    fn exec_subs(&mut self, caller: Id, subs: Vec<cosmwasm_std::SubMsg>) -> Result<(), String> {
+        use cosmwasm_std::{Reply, ReplyOn, SubMsgResponse, SubMsgResult};
+        for sub in subs {
+            if sub.reply_on == ReplyOn::Never {
+                self.exec_cosmos(caller, sub.msg)?;
+                continue;
+            }
+            let snapshot = self.clone();
+            let r = self.exec_cosmos(caller, sub.msg);
+            let result = match r {
+                Ok(()) => {
+                    if sub.reply_on == ReplyOn::Error {
+                        continue;
+                    }
+                    SubMsgResult::Ok(SubMsgResponse { events: vec![], data: None })
+                }
+                Err(e) => {
+                    // roll the sub-transaction back, keeping the diagnostics
+                    let trace = std::mem::take(&mut self.trace);
+                    let effects = std::mem::take(&mut self.effects);
+                    let fuel = self.fuel;
+                    *self = snapshot;
+                    self.trace = trace;
+                    self.effects = effects;
+                    self.fuel = fuel;
+                    if sub.reply_on == ReplyOn::Success {
+                        return Err(e);
+                    }
+                    SubMsgResult::Err(e)
+                }
+            };
+            let resp = self.run_reply(caller, Reply { id: sub.id, result })?;
+            self.trace.push(format!("Y{}.reply", caller));
+            self.exec_subs(caller, resp.messages)?;
         }
         Ok(())
+    }
+
+    /// call a contract's `reply` entry point (only contracts whose source defines one — see build.rs)
+    #[allow(unused_variables, unused_mut)]
+    fn run_reply(&mut self, target: Id, reply: cosmwasm_std::Reply) -> Result<Response, String> {
+        let api = MockApi::default();
+        let env = self.env(target);
+        let mut store = match self.stores.remove(&target) {
+            Some(s) => s,
+            None => return Err("contract not instantiated".into()),
+        };
+        let result = {
+            let querier = ChainQuerier { chain: &*self, from: target };
+            let deps: DepsMut<cosmwasm_std::Empty> = DepsMut { storage: &mut store, api: &api, querier: QuerierWrapper::new(&querier) };
+            catch_unwind(AssertUnwindSafe(|| -> Result<Response, String> {
+                match target {
+                    #[cfg(has_reply_hub)]
+                    HUB => basset_sei_hub::contract::reply(deps, env, reply).map_err(|e| e.to_string()),
+                    #[cfg(has_reply_bsei)]
+                    BSEI => basset_sei_token_bsei::contract::reply(deps, env, reply).map_err(|e| e.to_string()),
+                    #[cfg(has_reply_stsei)]
+                    STSEI => basset_sei_token_stsei::contract::reply(deps, env, reply).map_err(|e| e.to_string()),
+                    #[cfg(has_reply_reward)]
+                    REWARD => basset_sei_reward::contract::reply(deps, env, reply).map_err(|e| e.to_string()),
+                    #[cfg(has_reply_disp)]
+                    DISP => basset_sei_rewards_dispatcher::contract::reply(deps, env, reply).map_err(|e| e.to_string()),
+                    #[cfg(has_reply_reg)]
+                    REG => basset_sei_validators_registry::contract::reply(deps, env, reply).map_err(|e| e.to_string()),
+                    _ => Err("contract has no reply entry point".into()),
+                }
+            }))
+        };
+        self.stores.insert(target, store);
+        match result {
+            Ok(r) => r,
+            Err(_) => Err("panic in reply".into()),
+        }
     }
 
     fn exec_cosmos(&mut self, sender: Id, msg: CosmosMsg) -> Result<(), String> {
